@@ -79,6 +79,7 @@ func (b *Bind) Custom(name string, dest any) error {
 func (b *Bind) Header(out any) error {
 	bind := binder.GetFromThePool[*binder.HeaderBinding](&binder.HeaderBinderPool)
 	bind.EnableSplitting = b.ctx.App().config.EnableSplittingOnParsers
+	bind.Immutable = b.ctx.App().config.Immutable
 
 	// Reset & put binder
 	defer func() {
@@ -97,6 +98,7 @@ func (b *Bind) Header(out any) error {
 func (b *Bind) RespHeader(out any) error {
 	bind := binder.GetFromThePool[*binder.RespHeaderBinding](&binder.RespHeaderBinderPool)
 	bind.EnableSplitting = b.ctx.App().config.EnableSplittingOnParsers
+	bind.Immutable = b.ctx.App().config.Immutable
 
 	// Reset & put binder
 	defer func() {
@@ -116,6 +118,7 @@ func (b *Bind) RespHeader(out any) error {
 func (b *Bind) Cookie(out any) error {
 	bind := binder.GetFromThePool[*binder.CookieBinding](&binder.CookieBinderPool)
 	bind.EnableSplitting = b.ctx.App().config.EnableSplittingOnParsers
+	bind.Immutable = b.ctx.App().config.Immutable
 
 	// Reset & put binder
 	defer func() {
@@ -134,6 +137,7 @@ func (b *Bind) Cookie(out any) error {
 func (b *Bind) Query(out any) error {
 	bind := binder.GetFromThePool[*binder.QueryBinding](&binder.QueryBinderPool)
 	bind.EnableSplitting = b.ctx.App().config.EnableSplittingOnParsers
+	bind.Immutable = b.ctx.App().config.Immutable
 
 	// Reset & put binder
 	defer func() {
@@ -208,6 +212,7 @@ func (b *Bind) XML(out any) error {
 func (b *Bind) Form(out any) error {
 	bind := binder.GetFromThePool[*binder.FormBinding](&binder.FormBinderPool)
 	bind.EnableSplitting = b.ctx.App().config.EnableSplittingOnParsers
+	bind.Immutable = b.ctx.App().config.Immutable
 
 	// Reset & put binder
 	defer func() {
